@@ -68,4 +68,21 @@ CLAIMS = {
                 "(c10_no_uninit, c10_no_uninit_seq). Tie: history-vs-fresh and repeated-query twins on the real code, bit for bit, plus model comparison of all outputs.",
         "note": "Trusted: as C01; the quantifier over heap contents is carried by the theorem on the model; on the code it is sampled (a poisoning allocator run is planned, DESIGN.md §7 C10).",
     },
+    "C06": {
+        "text": "Kernel-checked: the weighted problem and the problem with pre-scaled rows feed identical inputs to SVD, solve, residual and every Jacobian block (c06_equiv_cache, c06_equiv_jac: definitional), "
+                "unit weights = no weights (c06_unit), a zero weight removes every influence of that row of data, basis functions and derivatives (c06_zero_weight), the residual is W(Y - Phi C): each weight exactly once (c06_weights_once, c06_weights_once_entry). "
+                "Tie: three kinds of twins executed on the real code at every step of random histories.",
+        "note": "Trusted: as C01. The optimizer and the statistics are functions of residuals/Jacobian/coefficients (C04, C12), so equality there is inherited; fits of twins are compared in the fit stream.",
+    },
+    "C07": {
+        "text": "Kernel-checked for arbitrary column selections f (single column, permutation, duplicates): solving for selected observation columns gives the selected coefficient columns (c07_solve_cols), "
+                "the whole cache and every Jacobian block commute with column selection (c07_cache_cols, c07_jac_cols, c07_single, wmul_selectCols), sum of squares and every block sum (J^T J, J^T r) are invariant under column permutations (c07_sumsq_perm, c07_blocksum_perm). "
+                "Tie: S-column problem vs S single problems vs reversed columns on the real code.",
+        "note": "Trusted: as C01. One model definition serves both constructors (they differ in type-level flags only, C18).",
+    },
+    "C11": {
+        "text": "Kernel-checked: for every schedule that executes all column tasks - any order - the parallel Jacobian equals the sequential one whenever all derivatives evaluate (c11_par_eq_seq); if a failing derivative's task runs the parallel Jacobian is absent like the sequential one (c11_par_failure); "
+                "set_params/residuals/params are the same definitions; into_sequential preserves every field (c11_into_sequential). Assumption: derivative results during one Jacobian evaluation do not depend on call order (DerivDet). Tie: parallel vs sequential twins under pools of 1..16 threads.",
+        "note": "Trusted: as C01; rayon schedules are abstracted (any order), sampled on the code by pool size. Fits of parallel problems are compared in the fit stream.",
+    },
 }
